@@ -36,7 +36,7 @@ static uint64_t n_ex(void)
 	for (unsigned l = 0; l <= ex_len(); l++) { n += p; p *= 11; }
 	return n;
 }
-static uint64_t n_mut(void) { return vf_thorough ? 2000000 : 100000; }
+static uint64_t n_mut(void) { return vf_thorough ? 2000000 : 250000; }
 
 uint64_t vf_cases(void) { return n_ex() + n_mut(); }
 
